@@ -21,6 +21,10 @@ UBDQ_ASSUME = "the unbonding queue (Props/C09q): DelayUnbonding, PayFromUnbondin
 MINT_ASSUME = "the size of the block provision (the SDK minter's inflation and annual provisions) is an input of the mint model; the monitor supply_grows_by_the_provision restates BlockProvision = annual provisions / blocks per year on the observation"
 
 VM_ENGINES = [vm("ops", 16000, 320000), vm("structured", 16000, 320000), vm("raw", 16000, 320000), vm("calls", 16000, 320000), vm("create", 4800, 48000)]
+# zero-length memory operands at large offsets, one instruction per program (C16 zero_length_grows_memory, C17 memory_is_paid_for)
+VM_ZEROLEN = vm("zerolen", 3200, 64000)
+# a counting loop delivered as eWASM constructor / eWASM contract call / EVM init code through DeliverTx (C17 wasm_work_is_metered)
+WASM = chain("wasm", 16, 160, ops=4)
 VM_ASSUME = ["outside the Lean interpreter model (cases reaching them are skipped by the comparison, monitors still run): native/precompile addresses (<= 0xff), any use of an address destroyed earlier in the same transaction, call / constructor nesting deeper than 8",
              "CREATE and CREATE2 are inside the model; the address CREATE derives (SHA-256 of creator, transaction nonce and the CVM's sequence counter; no SHA-256 in the Lean base) is an input of the model: the harness reconstructs the table (creator, sequence number) -> address from the interpreter's call events, the driver checks that it is a one-to-one function, and a model run that asks for an entry the interpreter did not derive is reported as a difference; the CREATE2 address (Keccak-256) is computed by the model",
              "the VM engine's state gives every account the CreateContract permission (Burrow's default global permissions) and has no contract metadata (InitChildCode's code-hash whitelist is empty); the transaction nonce option of the CVM is empty",
@@ -91,16 +95,18 @@ PROPS = {
     "C16": {
         "lean": ["Shentu.Props.C16"],
         "drivers": ["vmdriver"],
-        "engines": VM_ENGINES,
+        "engines": VM_ENGINES + [VM_ZEROLEN],
         "trusted": VM_TRUST + ["Shentu.Gen.EVM is regenerated from vm/contract.go by the translator; the refinement theorems are stated about the regenerated definitions"],
         "assumptions": VM_ASSUME + ["the specification side of the comparison is the interpreter model with every recorded deviation switched off (Quirks.spec); gas, GAS/GASLIMIT-dependent programs and out-of-gas runs are not compared (gas accounting may differ)"],
     },
     "C17": {
         "lean": ["Shentu.Props.C17", "Shentu.Props.C18vm", "Shentu.Props.C10"],
         "drivers": ["vmdriver", "chaindriver"],
-        "engines": VM_ENGINES + [chain("bankvm", 64, 640, ops=100)],
-        "trusted": VM_TRUST,
-        "assumptions": VM_ASSUME + ["what is charged depends on parameters (the gas rate) and meters that must be read from the store at every execution: the regenerated inventory of in-memory state in keepers and packages (C10.no_unreviewed_sites) is an obligation of this property as well"],
+        "engines": VM_ENGINES + [VM_ZEROLEN, chain("bankvm", 64, 640, ops=100), WASM],
+        "trusted": VM_TRUST + ["the final size of every frame's memory is read by the harness from the interpreter's own memory objects (the provider vm.NewCVM installs by default, obtained by reflection and handed on unchanged); programs of the profile 'zerolen' also return their own MSIZE and the two readings are compared",
+                               "eWASM execution (Burrow's execution/wasm on perlin-network/life) is not modelled: it is exercised through DeliverTx by the profile 'wasm' and judged on gas used against a lower bound of the instructions executed"],
+        "assumptions": VM_ASSUME + ["the theorems of Props/C17 are about the EVM interpreter (vm/); contracts deployed with IsEWASM run on an engine that has no gas accounting at all (recorded: C17-ewasm_unmetered)",
+                                    "what is charged depends on parameters (the gas rate) and meters that must be read from the store at every execution: the regenerated inventory of in-memory state in keepers and packages (C10.no_unreviewed_sites) is an obligation of this property as well"],
     },
     "C01": dict(BANKVM, lean=["Shentu.Props.C01", "Shentu.Props.C01s", "Shentu.Props.C01vm", "Shentu.Props.C01run", "Shentu.Props.C01m"], drivers=["chaindriver", "vmdriver"],
                 engines=[chain("bankvm", 96, 960, ops=100), chain("gov", 48, 480, ops=100), chain("oracle", 48, 480), chain("shield", 32, 320, ops=120), chain("staking", 32, 320, ops=100),
